@@ -715,6 +715,33 @@ func (ff *FnFacts) dataflow() {
 			ff.edge[[2]*ssa.BasicBlock{b, b.Succs[1]}] = ff.condFacts(iff.Cond, false, b)
 			if pt := findTest(b); pt != nil {
 				ff.tests[b] = pt
+				if ff.resolved[pt.phi] != nil {
+					// the phi stands for one operand wherever it is USED; the test itself still sees the merged
+					// value, so its outcome is stated about the phi as such
+					raw := &Term{Op: "phi", Name: pt.phi.Name() + "@" + FuncName(fn), Val: pt.phi}
+					for si, truth := range []bool{true, false} {
+						var fs []Fact
+						switch {
+						case pt.isBool:
+							k := "false"
+							if truth == pt.neqOnTrue {
+								k = "true"
+							}
+							fs = []Fact{{Kind: k, A: raw}}
+						default:
+							op := "=="
+							if truth == pt.neqOnTrue {
+								op = "!="
+							}
+							kt := &Term{Op: "const", Name: "nil"}
+							if pt.k != nil {
+								kt = ff.TB.Of(pt.k)
+							}
+							fs = []Fact{normCmp(raw, op, kt)}
+						}
+						ff.edge[[2]*ssa.BasicBlock{b, b.Succs[si]}] = fs
+					}
+				}
 			}
 		}
 	}
@@ -1009,6 +1036,11 @@ func (ff *FnFacts) At(ins ssa.Instruction) FactSet {
 // EdgeFacts returns the facts generated on edge from->to.
 func (ff *FnFacts) EdgeFacts(from, to *ssa.BasicBlock) []Fact {
 	return ff.edge[[2]*ssa.BasicBlock{from, to}]
+}
+
+// EdgeOut returns the facts that hold when control has just taken the edge from->to (nil: edge never analysed).
+func (ff *FnFacts) EdgeOut(from, to *ssa.BasicBlock) FactSet {
+	return ff.edgeOut[[2]*ssa.BasicBlock{from, to}]
 }
 
 // IsLiveEdge reports whether the edge can be taken under the context.
@@ -1484,6 +1516,9 @@ func (ff *FnFacts) nilErr(v ssa.Value, facts FactSet) (bool, []Fact) {
 			}
 		}
 	case *ssa.Phi:
+		if rv := ff.resolved[x]; rv != nil {
+			return ff.nilErr(rv, facts) // wherever it is used, the phi is this operand
+		}
 		if facts.Has((&Fact{Kind: "cmp", Op: "!=", A: ff.TB.Of(v), B: &Term{Op: "const", Name: "nil"}}).Key()) {
 			return false, nil // tested non-nil after the join
 		}
